@@ -255,7 +255,11 @@ deriving DecidableEq, Repr, Inhabited
 structure GridTerm where
   cells : Int → Int → TCell
   line : Int
+  /-- the cursor column; `col = cols` is the pending-wrap state of a VT (the cursor sits on the last column and the next
+      character goes to the next line) -/
   col : Int
+  /-- the width of the terminal -/
+  cols : Int
   /-- the cell holding the last character of width ≥ 1 printed since the last cursor movement -/
   last : Option (Int × Int) := none
   /-- `tt->pen`, which is also the `final` pen the driver has been handed last -/
@@ -268,8 +272,8 @@ structure GridTerm where
 
 namespace GridTerm
 
-/-- A character of width `w ≥ 1` at the cursor. -/
-def putGlyph (t : GridTerm) (bs : List UInt8) (w : Int) : GridTerm :=
+/-- A character of width `w ≥ 1` written at the cursor, no questions asked. -/
+def putGlyphRaw (t : GridTerm) (bs : List UInt8) (w : Int) : GridTerm :=
   { t with
     cells := fun l c =>
       if l = t.line ∧ t.col ≤ c ∧ c < t.col + w then
@@ -277,6 +281,14 @@ def putGlyph (t : GridTerm) (bs : List UInt8) (w : Int) : GridTerm :=
       else t.cells l c
     col := t.col + w
     last := some (t.line, t.col) }
+
+/-- The deferred wrap of a VT: to column 0 of the next line (no scrolling: the plane is unbounded downwards). -/
+def wrap (t : GridTerm) : GridTerm := { t with line := t.line + 1, col := 0 }
+
+/-- A character of width `w ≥ 1` arrives: if it does not fit on the line — in particular in the pending-wrap state
+    `col = cols` — the cursor wraps first (DEC autowrap); printing into the last column leaves `col = cols`. -/
+def putGlyph (t : GridTerm) (bs : List UInt8) (w : Int) : GridTerm :=
+  (if t.col + w > t.cols then t.wrap else t).putGlyphRaw bs w
 
 /-- A zero-width character: attached to the last character printed, dropped when there is none. -/
 def addZeroWidth (t : GridTerm) (bs : List UInt8) : GridTerm :=
@@ -316,27 +328,31 @@ def reqBytes (viaWriteStr : Bool) (s : List UInt8) (start len : Nat) : List UInt
   if len = 0 && viaWriteStr then (s.drop start).takeWhile (· ≠ 0)
   else (s.drop start).take len
 
-/-- The driver's `goto_abs`. -/
-def goto (t : GridTerm) (line col : Int) : GridTerm := { t with line := line, col := col, last := none }
+/-- The driver's `goto_abs`: the column is clamped to the screen; every cursor movement ends the pending-wrap state. -/
+def goto (t : GridTerm) (line col : Int) : GridTerm :=
+  { t with line := line, col := max 0 (min col (t.cols - 1)), last := none }
 
 /-- `tickit_term_setpen` followed by the driver's `chpen(delta, final)`. -/
 def setpen (t : GridTerm) (p : Pen) : GridTerm := { t with pen := termSetpen t.pen p }
 
-/-- The driver's `erasech(count, moveend)`. -/
+/-- The driver's `erasech(count, moveend)`, as ECH (+ CUF): blanks from the cursor — which in the pending-wrap state is
+    on the last column — to at most the right edge; the cursor stays, or moves right (clamped, ending pending wrap). -/
 def erasech (t : GridTerm) (n : Int) (m : MaybeBool) : GridTerm :=
   if n < 1 then t
   else
+    let start := min t.col (t.cols - 1)
     let t' : GridTerm :=
       { t with
         cells := fun l c =>
-          if l = t.line ∧ t.col ≤ c ∧ c < t.col + n then
+          if l = t.line ∧ start ≤ c ∧ c < start + n ∧ c < t.cols then
             { glyph := .blank, pen := t.pen, writes := (t.cells l c).writes + 1 }
           else t.cells l c
         last := none }
     match m with
-    | .yes => { t' with col := t.col + n }
+    | .yes => { t' with col := min (start + n) (t.cols - 1) }
     | .no => t'
-    | .maybe => { t' with col := if t.oracle t.nmaybe then t.col + n else t.col, nmaybe := t.nmaybe + 1 }
+    | .maybe =>
+      { t' with col := if t.oracle t.nmaybe then min (start + n) (t.cols - 1) else t.col, nmaybe := t.nmaybe + 1 }
 
 /-- One request. -/
 def step (t : GridTerm) : Req → GridTerm
